@@ -181,23 +181,45 @@ class Printer:
             return '(' + self.query(n) + ')' + self.alias(n)
         raise Unsupported('FROM item ' + cn)
 
+    def with_clause(self, cte_list):
+        ctes = []
+        for c in cte_list:
+            cols = ''
+            if c.columns:
+                cols = '(' + ', '.join(qid(x.parts[-1]) for x in c.columns) + ')'
+            ctes.append(f'{qid(c.name.parts[-1])}{cols} AS ({self.query(c.query)})')
+        return 'WITH ' + ', '.join(ctes) + ' '
+
     def query(self, n):
         cn = type(n).__name__
         if cn in ('Union', 'Intersect', 'Except'):
             kw = cn.upper() + ('' if n.unique else ' ALL')
+            # the parsers attach a leading WITH clause to the left-most select, while in SQL it scopes over the
+            # whole compound statement: hoist it
+            import copy as _copy
+            left, prefix = n.left, ''
+            lm = left
+            while type(lm).__name__ in ('Union', 'Intersect', 'Except'):
+                lm = lm.left
+            if type(lm).__name__ == 'Select' and lm.cte:
+                n = _copy.copy(n)
+                chain = []
+                node = n
+                while type(node.left).__name__ in ('Union', 'Intersect', 'Except'):
+                    node.left = _copy.copy(node.left)
+                    node = node.left
+                lm2 = _copy.copy(node.left)
+                ctes = lm2.cte
+                lm2.cte = None
+                node.left = lm2
+                prefix = self.with_clause(ctes)
             # SQLite has no parenthesised compound operands: wrap each operand as a sub-select
-            return f'SELECT * FROM ({self.query(n.left)}) {kw} SELECT * FROM ({self.query(n.right)})'
+            return f'{prefix}SELECT * FROM ({self.query(n.left)}) {kw} SELECT * FROM ({self.query(n.right)})'
         if cn != 'Select':
             raise Unsupported('query node ' + cn)
         s = ''
         if n.cte:
-            ctes = []
-            for c in n.cte:
-                cols = ''
-                if c.columns:
-                    cols = '(' + ', '.join(qid(x.parts[-1]) for x in c.columns) + ')'
-                ctes.append(f'{qid(c.name.parts[-1])}{cols} AS ({self.query(c.query)})')
-            s += 'WITH ' + ', '.join(ctes) + ' '
+            s += self.with_clause(n.cte)
         s += 'SELECT '
         if n.distinct:
             s += 'DISTINCT '
